@@ -44,6 +44,7 @@ class FnSpec:
         self.closures = []       # (callee, signature template)
         self.locals = None       # names bound by `let` / `for` / `while let` in the pinned text, in order (tools/mklocals.py)
         self.params = None       # parameter names of the pinned signature, in order
+        self.ops = None          # bit-level / multiplicative operators of the pinned body, with counts (tools/mklocals.py)
         self.module = None       # module path in generated file, informational
         self.trusted = False
         self.sigreplace = []
@@ -119,6 +120,8 @@ def parse_sidecar(path):
                 cur.locals = rest.split()
             elif kw == 'params':
                 cur.params = rest.split()
+            elif kw == 'ops':
+                cur.ops = dict((kv.rsplit(':', 1)[0], int(kv.rsplit(':', 1)[1])) for kv in rest.split())
             elif kw == 'use':
                 cur.use_contract = rest
             elif kw == 'requires':
@@ -342,6 +345,43 @@ def split_sig_body(text):
     return head, text[m.start():p].rstrip(), text[p:]
 
 
+OPS = ('<<', '>>', '|', '&', '^', '*', '/', '%')
+
+
+def op_signature(body):
+    """how often each bit-level or multiplicative binary operator (and its assigning form) occurs in a function body: comments,
+    strings and character literals skipped, `|` of patterns (match arms, matches!, closure parameters) not counted.  The SMT
+    solver does not reason about these unprompted (bit-vector / non-linear arithmetic need `by (bit_vector)` / lemmas), so a body
+    that has MORE of them than the pinned text may fail its proof for that reason alone (rule A6)."""
+    clean, p, n = [], 0, len(body)
+    while p < n:
+        q = skip_trivia(body, p)
+        if q is not None:
+            clean.append(' ' * (q - p) if '\n' not in body[p:q] else '\n')
+            p = q
+            continue
+        clean.append(body[p])
+        p += 1
+    t = ''.join(clean)
+    t = re.sub(r"b?'(?:\\.|[^'\\])'", '0', t)            # character / byte literals
+    t = re.sub(r'\bmatches!\s*\(', 'matches!(\x00', t)
+    counts = dict((o, 0) for o in OPS)
+    for line in t.split('\n'):
+        seg = line
+        if '\x00' in seg:                                  # matches!(expr, PATTERN): drop what follows the first comma
+            a = seg.index('\x00')
+            c = seg.find(',', a)
+            seg = seg[:a] + (seg[a:c] if c >= 0 else '')
+        if '=>' in seg:                                    # match arm: the pattern is not arithmetic
+            seg = seg.split('=>', 1)[1]
+        if seg.strip().startswith('|'):                    # continuation line of a multi-line pattern
+            seg = ''
+        seg = re.sub(r'(^|[(,=]|\bmove)\s*\|[^|]*\|', r'\1 ', seg)      # closure parameters
+        for m in re.finditer(r'(?<=\s)(<<|>>|\||&|\^|\*|/|%)=?(?=\s)', seg):
+            counts[m.group(1)] += 1
+    return counts
+
+
 def bound_names(body):
     """names bound by let / if let Some / while let Some / for, in order of appearance (comments and strings skipped)"""
     out, p, n = [], 0, len(body)
@@ -432,6 +472,12 @@ def inject(spec, text, contract, warnings, vac=False):
         spec, contract = apply_renames(spec, contract, mp)
         if same:
             contract = spec
+    if spec.ops is not None and not spec.trusted and not vac:
+        cur_ops = op_signature(body)
+        more = ['`%s` %d times (pinned tree: %d)' % (o, cur_ops[o], spec.ops.get(o, 0)) for o in OPS if cur_ops[o] > spec.ops.get(o, 0)]
+        if more:
+            # rule A6: a tool limit, not a verdict -- the witness search decides whether the new arithmetic misbehaves
+            warnings.append('%s: new bit-level / multiplicative arithmetic in the source (%s), which the SMT solver does not reason about unprompted; a failure is not trusted' % (fnm, ', '.join(more)))
     head = strip_doc_comments(strip_attrs(head, DROP_ATTRS))
     for old, new in spec.sigreplace:
         if old not in sig:
